@@ -29,6 +29,16 @@ def enumerate {α : Type} (l : List α) : List (Nat × α) := enumFrom 0 l
 /-- `u32::checked_add` -/
 def checkedAdd32 (a b : Nat) : Option Nat := if a + b ≤ 4294967295 then some (a + b) else none
 
+/-- `weak_index.entry(k).or_default().push(i)` on the index kept as an association list (insertion order of the keys) -/
+def idxPush : List (Nat × List Nat) → Nat → Nat → List (Nat × List Nat)
+  | [], k, i => [(k, [i])]
+  | (k', is) :: r, k, i => if k' = k then (k', is ++ [i]) :: r else (k', is) :: idxPush r k i
+
+/-- `weak_index.get(&k)` -/
+def idxGet : List (Nat × List Nat) → Nat → Option (List Nat)
+  | [], _ => none
+  | (k', is) :: r, k => if k' = k then some is else idxGet r k
+
 /-- An input that hands out its bytes in reads of its own choosing (a pipe, a socket, `ssh cat`): what it still holds, and for
 each coming `read` how many bytes it is willing to deliver at most (`c` stands for `c + 1`: a read with room never returns 0
 before the end of the input; when the list is used up every read fills the room). -/
